@@ -615,22 +615,6 @@ fn c17_partitions_n1() {
     partitions::<1>();
 }
 
-// @verif prop=C17 tier=thorough shape="2 stored ranges with free u64 bounds (invariant assumed); ; probe height free u64" funcs="BlockRanges::partitions,BlockRanges::{len,pop_head,pop_tail,insert_relaxed}"
-#[kani::proof]
-#[kani::unwind(8)]
-#[kani::solver(minisat)]
-fn c17_partitions_n2() {
-    partitions::<2>();
-}
-
-// @verif prop=C17 tier=thorough shape="3 stored ranges with free u64 bounds (invariant assumed); ; probe height free u64" funcs="BlockRanges::partitions,BlockRanges::{len,pop_head,pop_tail,insert_relaxed}"
-#[kani::proof]
-#[kani::unwind(8)]
-#[kani::solver(minisat)]
-fn c17_partitions_n3() {
-    partitions::<3>();
-}
-
 // @verif prop=C17 tier=quick shape="operands with 0 and 0 stored ranges, free u64 bounds (invariant assumed); probe height free u64" funcs="<BlockRanges as BitOr>::bitor,AddAssign::add_assign,BlockRanges::insert_relaxed"
 #[kani::proof]
 #[kani::unwind(8)]
